@@ -40,6 +40,42 @@ def signature(kind, case):
     return sig
 
 
+def run_sharded(ctx, cases, shards, timeout=1700):
+    """As lifecycle_common.run_sharded, but a shard whose driver died (e.g. its MOSN lost the race for a listener
+    port against another process) is started once more before the run is declared inconclusive."""
+    import subprocess
+    binary = vlib.go_build("c14")
+    cpath = os.path.join(ctx.tmp, "c14_picked.jsonl")
+    with open(cpath, "w") as fh:
+        for c in cases:
+            fh.write(json.dumps(c) + "\n")
+    env = vlib.go_env()
+    env.update(VERIF_SEED=str(ctx.seed), VERIF_TIER=ctx.tier)
+
+    def start(s, attempt):
+        t = os.path.join(ctx.tmp, "c14_trace_%d.ndjson" % s)
+        r = os.path.join(ctx.tmp, "c14_res_%d.jsonl" % s)
+        lg = open(os.path.join(ctx.tmp, "c14_drv_%d_%d.log" % (s, attempt)), "w")
+        p = subprocess.Popen(["timeout", "-k", "10", str(timeout), binary, "-cases", cpath, "-trace", t, "-results", r,
+                              "-shard", str(s), "-shards", str(shards)], stdout=lg, stderr=subprocess.STDOUT, env=env, cwd=ctx.tmp)
+        return (p, t, r, lg, s)
+    procs = [start(s, 0) for s in range(shards)]
+    traces, results = [], []
+    for p, t, r, lg, s in procs:
+        rc = p.wait()
+        lg.close()
+        if rc != 0 and rc != 124:
+            vlib.log("[C14] driver shard %d died rc=%s, starting it once more\n%s" % (s, rc, vlib.tail(lg.name, 8)))
+            p, t, r, lg, s = start(s, 1)
+            rc = p.wait()
+            lg.close()
+        if rc != 0:
+            raise vlib.Inconclusive("driver c14 shard %d died rc=%s\n%s" % (s, rc, vlib.tail(lg.name)))
+        traces.append(t)
+        results += vlib.read_jsonl(r)
+    return traces, results
+
+
 def validate_group(ctx, gi, paths, out):
     allp = os.path.join(ctx.tmp, "C14_group_%d.ndjson" % gi)
     with open(allp, "w") as fo:
@@ -87,7 +123,7 @@ def run(ctx):
     picked += real_cases()
     rng.shuffle(picked)
     shards = 12 if q else 14
-    traces, results = lc.run_sharded(ctx, "c14", picked, shards=shards)
+    traces, results = run_sharded(ctx, picked, shards)
     # 3. TLC validates every recorded run against the specification (groups of shard traces in parallel)
     ngroups = 4 if q else 6
     groups = [traces[i::ngroups] for i in range(ngroups)]
